@@ -58,6 +58,51 @@ theorem takeFit_snd_subset (wl : Nat) (gs : List G) : ∀ g ∈ (takeFit wl gs).
   rw [← this]
   exact List.mem_append_right _ hg
 
+theorem takeFitF_append (fx : Fixes) (len wl : Nat) (gs : List G) :
+    (takeFitF fx len wl gs).1 ++ (takeFitF fx len wl gs).2 = gs := by
+  unfold takeFitF
+  split
+  · cases gs <;> simp
+  · exact takeFit_append wl gs
+
+theorem takeFitF_snd_length_le (fx : Fixes) (len wl : Nat) (gs : List G) :
+    (takeFitF fx len wl gs).2.length ≤ gs.length := by
+  have := congrArg List.length (takeFitF_append fx len wl gs)
+  simp at this; omega
+
+theorem takeFitF_snd_subset (fx : Fixes) (len wl : Nat) (gs : List G) :
+    ∀ g ∈ (takeFitF fx len wl gs).2, g ∈ gs := by
+  intro g hg
+  have := takeFitF_append fx len wl gs
+  rw [← this]
+  exact List.mem_append_right _ hg
+
+/-- Without the progress repair, or when something fits, `takeFitF` is `takeFit`. -/
+theorem takeFitF_eq (fx : Fixes) (len wl : Nat) (gs : List G)
+    (h : fx.forceProgress = false ∨ len ≠ 0 ∨ (takeFit wl gs).1 ≠ []) :
+    takeFitF fx len wl gs = takeFit wl gs := by
+  unfold takeFitF
+  split
+  · rename_i hc
+    rcases h with h | h | h
+    · rw [h] at hc; cases hc.1
+    · exact absurd hc.2.1 h
+    · exact absurd hc.2.2 h
+  · rfl
+
+/-- With the progress repair, on an empty line, a non-empty section always loses a cluster. -/
+theorem takeFitF_progress (fx : Fixes) (wl : Nat) (g : G) (gs : List G) (hf : fx.forceProgress = true) :
+    (takeFitF fx 0 wl (g :: gs)).2.length < (g :: gs).length := by
+  unfold takeFitF
+  split
+  · simp
+  · rename_i hc
+    have hne : (takeFit wl (g :: gs)).1 ≠ [] := fun h => hc ⟨hf, rfl, h⟩
+    have := congrArg List.length (takeFit_append wl (g :: gs))
+    have hpos : 0 < (takeFit wl (g :: gs)).1.length := List.length_pos_iff.mpr hne
+    simp at this ⊢
+    omega
+
 /-! ### The step relation -/
 
 theorem allZeroWidth_cons (s : Sec) (r : List Sec) :
@@ -88,7 +133,8 @@ inductive StepRel (fx : Fixes) (cfg : Cfg) (sym lw : Nat) : St → St → Prop
       (hl : limitReached (effMax cfg lw) st.result.length = false)
       (hge : lw ≤ st.len + gsWidth gs)
       (hnf : ¬ (st.len + gsWidth gs = lw ∧ PerfectRest fx rest))
-      (hw : widthLeftF fx cfg lw st.len gs = 0) (hns : fx.noShortcut = false) :
+      (hw : widthLeft cfg lw st.len gs = 0) (hns : fx.noShortcut = false)
+      (hnfo : ¬ (fx.forceProgress = true ∧ st.len = 0)) :
       StepRel fx cfg sym lw st
         { result := st.result ++ [st.curr ++ [(sym, [cfg.leftSym])]],
           curr := [], len := 0, stack := (style, gs) :: rest }
@@ -97,12 +143,13 @@ inductive StepRel (fx : Fixes) (cfg : Cfg) (sym lw : Nat) : St → St → Prop
       (hl : limitReached (effMax cfg lw) st.result.length = false)
       (hge : lw ≤ st.len + gsWidth gs)
       (hnf : ¬ (st.len + gsWidth gs = lw ∧ PerfectRest fx rest))
-      (hw : widthLeftF fx cfg lw st.len gs ≠ 0 ∨ fx.noShortcut = true) :
+      (hw : widthLeft cfg lw st.len gs ≠ 0 ∨ fx.noShortcut = true ∨
+            (fx.forceProgress = true ∧ st.len = 0)) :
       StepRel fx cfg sym lw st
         { result := st.result ++
-            [st.curr ++ [(style, (takeFit (widthLeftF fx cfg lw st.len gs) gs).1), (sym, [cfg.leftSym])]],
+            [st.curr ++ [(style, (takeFitF fx st.len (widthLeft cfg lw st.len gs) gs).1), (sym, [cfg.leftSym])]],
           curr := [], len := 0,
-          stack := (style, (takeFit (widthLeftF fx cfg lw st.len gs) gs).2) :: rest }
+          stack := (style, (takeFitF fx st.len (widthLeft cfg lw st.len gs) gs).2) :: rest }
 
 theorem step_next {fx : Fixes} {cfg : Cfg} {sym lw : Nat} {st st' : St}
     (h : step fx cfg sym lw st = .next st') : StepRel fx cfg sym lw st st' := by
@@ -145,15 +192,19 @@ theorem step_next {fx : Fixes} {cfg : Cfg} {sym lw : Nat} {st st' : St}
               split at h
               · rename_i hw
                 cases h
-                exact StepRel.split0 st style gs rest hs hl' hge hnf hw.1 hw.2
+                exact StepRel.split0 st style gs rest hs hl' hge hnf hw.1 hw.2.1 hw.2.2
               · rename_i hw
                 cases h
                 refine StepRel.splitk st style gs rest hs hl' hge hnf ?_
-                by_cases h0 : widthLeftF fx cfg lw st.len gs = 0
+                by_cases h0 : widthLeft cfg lw st.len gs = 0
                 · right
                   cases hns : fx.noShortcut with
-                  | true => rfl
-                  | false => exact absurd ⟨h0, hns⟩ hw
+                  | true => left; rfl
+                  | false =>
+                    right
+                    apply Classical.byContradiction
+                    intro hnf2
+                    exact hw ⟨h0, hns, hnf2⟩
                 · left; exact h0
 
 theorem step_done_stackEmpty {fx : Fixes} {cfg : Cfg} {sym lw : Nat} {st : St}
